@@ -50,15 +50,60 @@ def kind_of(path):
 
 
 # ---------------------------------------------------------------------------- kernel 1: promotion
+TREES = {
+    # (kind, name, children); kinds: lib ns cls fn enum var.  Typedef declarations are left out: add_typedef
+    # does not hand per-declaration options to the node and typedefs produce no output in any language,
+    # so there is nothing of the property to observe on them.
+    "A": ("lib", "lib", [("fn", "fn0", []), ("ns", "ns", [("fn", "fn1", []), ("cls", "cls", [("fn", "fn2", [])])])]),
+    "B": ("lib", "lib", [("ns", "ns", [("ns", "ns2", [("fn", "fn1", []), ("cls", "cls", [("fn", "fn2", [])])]),
+                                       ("enum", "en", [])]),
+                         ("var", "var", [])]),
+    "C": ("lib", "lib", [("cls", "cls", [("cls", "cls2", [("fn", "fn1", [])]), ("enum", "en", []), ("var", "var", [])]),
+                         ("ns", "ns", [("ns", "ns2", [("ns", "ns3", [("fn", "fn2", [])])])])]),
+}
+
+
+def tree_nodes(t, acc=None):
+    acc = [] if acc is None else acc
+    acc.append(t)
+    for c in t[2]:
+        tree_nodes(c, acc)
+    return acc
+
+
+def build_tree(t, opts, parent=None):
+    """Build the real AST for a TREES entry; returns {name: node}."""
+    from shroud import ast
+    kind, name, kids = t
+    if kind == "lib":
+        node = ast.LibraryNode(library="lib", options=opts(name))
+    elif kind == "ns":
+        node = parent.add_namespace(name, options=opts(name))
+    elif kind == "cls":
+        node = parent.add_class(name.capitalize(), options=opts(name))
+    elif kind == "fn":
+        node = parent.add_function("void %s()" % name, options=opts(name))
+    elif kind == "enum":
+        node = parent.add_enum("enum %s { %s_A }" % (name.capitalize(), name), options=opts(name))
+    elif kind == "var":
+        node = parent.add_variable("int %s" % name, options=opts(name))
+    elif kind == "typedef":
+        node = parent.add_typedef("typedef int %s" % name, options=opts(name))
+    out = {name: node}
+    for c in kids:
+        out.update(build_tree(c, opts, node))
+    return out
+
+
 class PromoteHarness(object):
-    """library { fn0, ns { fn1, class { fn2 } } } with wrap_c/f/python/lua symbolic on every node."""
+    """A library tree (TREES) with wrap_c/f/python/lua symbolic on every node."""
 
-    NODES = ["lib", "fn0", "ns", "fn1", "cls", "fn2"]
-    CHILDREN = {"lib": ["fn0", "ns"], "ns": ["fn1", "cls"], "cls": ["fn2"]}
-
-    def __init__(self, lang=None, twin=False):
+    def __init__(self, lang=None, twin=False, tree="A"):
         self.twin = twin
         self.lang = lang     # the language whose flags are symbolic (the four languages do not interact)
+        self.tree = tree
+        self.spec = TREES[tree]
+        self.containers = [t for t in tree_nodes(self.spec) if t[0] in ("lib", "ns", "cls")]
 
     def run(self, e):
         from shroud import ast, typemap
@@ -76,31 +121,23 @@ class PromoteHarness(object):
                     o["wrap_" + lang] = False
                 self.v[(name, lang)] = z
             return o
-        lib = ast.LibraryNode(library="lib", options=opts("lib"))
-        f0 = lib.add_function("void fn0()", options=opts("fn0"))
-        ns = lib.add_namespace("ns", options=opts("ns"))
-        f1 = ns.add_function("void fn1()", options=opts("fn1"))
-        cls = ns.add_class("Cls", options=opts("cls"))
-        f2 = cls.add_function("void fn2()", options=opts("fn2"))
-        ast.promote_wrap(lib)
-        return {"lib": lib.wrap, "fn0": f0.wrap, "ns": ns.wrap, "fn1": f1.wrap, "cls": cls.wrap, "fn2": f2.wrap}
-
-    def subtree(self, n):
-        out = [n]
-        for c in self.CHILDREN.get(n, []):
-            out += self.subtree(c)
-        return out
+        nodes = build_tree(self.spec, opts)
+        ast.promote_wrap(nodes["lib"])
+        return {n: node.wrap for n, node in nodes.items()}
 
     def judge(self, e, kind, value):
         m = e.model()
         cfg = {"%s.%s" % k: bool(z3.is_true(m.eval(z, model_completion=True))) for k, z in self.v.items()}
+        cls = "promote/" + self.tree
         if kind == "exc":
-            return {"cls": "promote", "violation": {"kernel": "promote", "options": cfg, "what": "exception %s: %s" % (type(value).__name__, value)}}
+            return {"cls": cls, "violation": {"kernel": "promote", "tree": self.tree, "options": cfg,
+                                              "what": "exception %s: %s" % (type(value).__name__, value)}}
         fail = None
-        for n in ("lib", "ns", "cls"):
+        for t in self.containers:
+            n = t[1]
             for lang in LANGS:
                 got = getattr(value[n], lang)
-                want = z3.Or([self.v[(d, lang)] for d in self.subtree(n)])
+                want = z3.Or([self.v[(d[1], lang)] for d in tree_nodes(t)])
                 gz = got.z if isinstance(got, SymBool) else bool(got)
                 claim = gz == want
                 if e.check(z3.Not(claim)) == "sat":
@@ -113,28 +150,25 @@ class PromoteHarness(object):
         if self.twin and not fail:
             fail = "reachability twin"
         if fail:
-            return {"cls": "promote", "violation": {"kernel": "promote", "options": cfg, "what": fail}, "vkey": fail[:60]}
-        return {"cls": "promote", "sample": {"kernel": "promote", "options": cfg}}
+            return {"cls": cls, "violation": {"kernel": "promote", "tree": self.tree, "options": cfg, "what": fail}, "vkey": fail[:60]}
+        return {"cls": cls, "sample": {"kernel": "promote", "tree": self.tree, "options": cfg}}
 
 
 def confirm_promote(w):
-    from shroud import ast, typemap
+    from shroud import typemap
     typemap.initialize()
-    o = lambda n: {"wrap_" + l: w["options"]["%s.%s" % (n, l)] for l in LANGS}
-    lib = ast.LibraryNode(library="lib", options=o("lib"))
-    f0 = lib.add_function("void fn0()", options=o("fn0"))
-    ns = lib.add_namespace("ns", options=o("ns"))
-    f1 = ns.add_function("void fn1()", options=o("fn1"))
-    cls = ns.add_class("Cls", options=o("cls"))
-    f2 = cls.add_function("void fn2()", options=o("fn2"))
-    ast.promote_wrap(lib)
-    sub = {"lib": ["lib", "fn0", "ns", "fn1", "cls", "fn2"], "ns": ["ns", "fn1", "cls", "fn2"], "cls": ["cls", "fn2"]}
-    nodes = {"lib": lib, "ns": ns, "cls": cls}
-    for n, node in nodes.items():
+    spec = TREES[w.get("tree", "A")]
+    nodes = build_tree(spec, lambda n: {"wrap_" + l: w["options"]["%s.%s" % (n, l)] for l in LANGS})
+    from shroud import ast
+    ast.promote_wrap(nodes["lib"])
+    for t in tree_nodes(spec):
+        if t[0] not in ("lib", "ns", "cls"):
+            continue
         for l in LANGS:
-            want = any(w["options"]["%s.%s" % (d, l)] for d in sub[n])
-            if bool(getattr(node.wrap, l)) != want:
-                return "after promotion %s.wrap.%s is %r, expected %r" % (n, l, bool(getattr(node.wrap, l)), want)
+            want = any(w["options"]["%s.%s" % (d[1], l)] for d in tree_nodes(t))
+            got = bool(getattr(nodes[t[1]].wrap, l))
+            if got != want:
+                return "after promotion %s.wrap.%s is %r, expected %r" % (t[1], l, got, want)
     return None
 
 
@@ -372,8 +406,9 @@ def main():
         rep.inconc("identity test on a value this harness makes symbolic: " + ln)
     specs, labels = [], []
     for lang in LANGS:
-        specs.append(("harness.C15", "make_promote", dict(lang=lang)))
-        labels.append("promote_wrap kernel, wrap_%s symbolic on 6 nodes" % lang)
+        for tree in sorted(TREES):
+            specs.append(("harness.C15", "make_promote", dict(lang=lang, tree=tree)))
+            labels.append("promote_wrap kernel, tree %s, wrap_%s symbolic on %d nodes" % (tree, lang, len(tree_nodes(TREES[tree]))))
     libs = ["geom", "clib", "strs"] if tier == "quick" else ["geom", "clib", "strs", "nest", "plain"]
     cfs = [(True, True), (True, False), (False, False)]
     for lib in libs:
@@ -440,7 +475,7 @@ def main():
         "exhaustive": True,
         "functions_encoded": ["shroud.ast.WrapFlags, PromoteWrap, promote_wrap", "whole pipeline (see C16)",
                               "shroud.generate.GenFunctions wrap.assign / wrap.clear sites"],
-        "bounds": {"libraries": libs, "wrap_c_fortran_enumerated": cfs, "output_directories": DIRS},
+        "bounds": {"promotion_trees": {k: [n[0] + ":" + n[1] for n in tree_nodes(v)] for k, v in TREES.items()}, "libraries": libs, "wrap_c_fortran_enumerated": cfs, "output_directories": DIRS},
         "solver": {"name": "z3 " + z3.get_version_string(), "queries": total.stats.queries, "solver_s": round(total.stats.solver_s, 2)},
         "reachability_twin_ok": twin_ok,
         "static_identity_scan_hits": scan,
